@@ -12,21 +12,38 @@ import (
 // rcvNxt (the head of the heap is the smallest); the reader queue holds stream bytes that end
 // at rcvNxt.
 
+// vhNear returns base+d for an enumerated small signed offset d in [lo,hi]: the relative
+// position is concrete per path while base (and hence every wrap-around position) stays symbolic.
+func vhNear(name string, base seqnum.Value, lo, hi int) seqnum.Value {
+	d := lo + vnChoice(name, hi-lo+1)
+	return base + seqnum.Value(uint32(int32(d)))
+}
+
 func (c *vhConn) vhReceiver(maxPending int) (rcvNxt seqnum.Value, wnd seqnum.Size) {
 	e := c.e
 	rcvNxt = seqnum.Value(vnU32("rcvNxt"))
-	wnd = seqnum.Size(vnU32("wnd"))
-	vassume(wnd < 1<<30)
-	e.rcv = newReceiver(e, rcvNxt-1, wnd, uint8(vnChoice("wscale", 3)*7))
+	// window: closed, tiny, or arbitrary large
+	switch vhPick("wndkind", 3) {
+	case 0:
+		wnd = 0
+	case 1:
+		wnd = 2
+	default:
+		wnd = seqnum.Size(vnU32("wnd"))
+		vassume(wnd >= 16 && wnd < 1<<30)
+	}
+	e.rcv = newReceiver(e, rcvNxt-1, wnd, uint8(vparam("wscale", 0)))
 	vassert(e.rcv.rcvNxt == rcvNxt && e.rcv.rcvAcc == rcvNxt.Add(wnd), "newReceiver starts at irs+1 with the given window")
 	e.snd = newSender(e, seqnum.Value(vnU32("iss")), rcvNxt-1, 1<<16, 1460, 0)
 	np := vnChoice("npending", maxPending+1)
-	var prev seqnum.Value = rcvNxt
+	prev := rcvNxt
 	for i := 0; i < np; i++ {
 		// pending segments in heap order: each starts after rcvNxt and not before the previous one
-		gap := seqnum.Size(vnU32("gap"))
-		vassume(gap >= 1 && gap < 1<<20)
-		seq := prev.Add(gap)
+		lo := 0
+		if i == 0 {
+			lo = 1
+		}
+		seq := vhNear("gap", prev, lo, 2)
 		n := 1 + vnChoice("plen", 2)
 		s := c.vhSeg(seq, n, 0, flagAck)
 		heap.Push(&e.rcv.pendingRcvdSegments, s)
@@ -56,14 +73,27 @@ func vhInvR(e *endpoint) bool {
 func vh_rcv_step() {
 	c := vhEP(1<<20, 1<<20)
 	e := c.e
-	rcvNxt0, wnd := c.vhReceiver(vparam("pending", 2))
+	rcvNxt0, wnd := c.vhReceiver(vparam("pending", 1))
 	_ = wnd
 	vassert(vhInvR(e), "constructed pre-state satisfies InvR")
-	seq := seqnum.Value(vnU32("seq"))
-	n := vnChoice("len", vparam("seglen", 4)+1)
+	// the incoming segment sits near rcvNxt, near the right window edge, or anywhere
+	var seq seqnum.Value
+	switch vhPick("seqkind", 3) {
+	case 0:
+		seq = vhNear("dseq", rcvNxt0, -3, 4)
+	case 1:
+		seq = vhNear("dacc", e.rcv.rcvAcc, -3, 1)
+	default:
+		seq = seqnum.Value(vnU32("seq"))
+	}
+	n := vnChoice("len", vparam("seglen", 3)+1)
 	flags := vnU8("flags")
 	vassume(flags&(flagSyn|flagRst) == 0) // established-state data path; SYN/RST are handled before the receiver
-	s := c.vhSeg(seq, n, vnChoice("split", 2)*2, flags)
+	split := 0
+	if n >= 2 {
+		split = vnChoice("split", 2)
+	}
+	s := c.vhSeg(seq, n, split, flags)
 	acc0 := e.rcv.rcvAcc
 	e.rcv.handleRcvdSegment(s)
 	rcvNxt1 := e.rcv.rcvNxt
